@@ -135,7 +135,7 @@ VF_REGISTER("C18", mk_c18);
 
 // ------------------------------------------------------------------------------------------ C07
 static const uint64_t BV[] = {0, 1, 2, 3, 4, 5, 127, 128, 254, 255, 256, 257, 65534, 65535, 65536, 0x7fffffffULL, 0x80000000ULL, 0xffffffffULL, 0x100000000ULL, 0x7fffffffffffffffULL, 0x8000000000000000ULL, 0xffffffffffffffffULL};
-static void put_le(std::string &s, size_t off, uint64_t v, int n) { for (int i = 0; i < n && off + i < s.size(); ++i) s[off + i] = (char)((v >> (8 * i)) & 255); }
+static void put_le(std::string &s, size_t off, uint64_t v, int n) { if (off >= s.size()) return; for (int i = 0; i < n && off + i < s.size(); ++i) s[off + i] = (char)((v >> (8 * i)) & 255); }
 
 static std::string mutate_ovmb(const std::string &orig, const RefFile &rf, const std::string &other, Rng &rng, std::string &desc) {
     std::string s = orig;
@@ -155,10 +155,10 @@ static std::string mutate_ovmb(const std::string &orig, const RefFile &rf, const
                 else if (c.type == "DIRP" && c.body_len > 4) { field(c.body_off + rng.below(c.body_len - 3), rng.chance(1, 2) ? 4 : 1, "DIRP"); }
                 break;
         case 3: if (c.body_len > 0) { size_t o = c.body_off + rng.below(c.body_len); int w = 1 << rng.below(3); field(o, w, "payload"); } break;   // handle values, valences, string lengths
-        case 4: if (c.body_len > 0) { size_t cut = 1 + rng.below(std::min<size_t>(c.body_len, 16)); s.erase(c.body_off + c.body_len - cut, cut); d << "payload of " << c.type << " shortened by " << cut << " (length field kept)"; } break;
-        case 5: { size_t add = 1 + rng.below(16); s.insert(c.body_off + c.body_len, std::string(add, (char)rng.below(256))); d << "payload of " << c.type << " extended by " << add; break; }
-        case 6: { size_t cut = 1 + rng.below(std::min<size_t>(c.body_len + 1, 24)); if (cut <= c.body_len) { s.erase(c.body_off + c.body_len - cut, cut); put_le(s, c.hdr_off + 8, c.file_length - cut, 8); d << c.type << " payload and length field reduced by " << cut; } break; }
-        case 7: { std::string ch = orig.substr(c.hdr_off, 16 + (size_t)c.file_length); int w = (int)rng.below(3); if (w == 0) { s.erase(c.hdr_off, ch.size()); d << c.type << " chunk dropped"; } else if (w == 1) { s.insert(c.hdr_off, ch); d << c.type << " chunk duplicated"; }
+        case 4: if (c.body_len > 0) { size_t cut = 1 + rng.below(std::min<size_t>(c.body_len, 16)); if (c.body_off + c.body_len <= s.size()) s.erase(c.body_off + c.body_len - cut, cut); d << "payload of " << c.type << " shortened by " << cut << " (length field kept)"; } break;
+        case 5: { size_t add = 1 + rng.below(16); s.insert(std::min(s.size(), c.body_off + c.body_len), std::string(add, (char)rng.below(256))); d << "payload of " << c.type << " extended by " << add; break; }
+        case 6: { size_t cut = 1 + rng.below(std::min<size_t>(c.body_len + 1, 24)); if (cut <= c.body_len && c.body_off + c.body_len <= s.size()) { s.erase(c.body_off + c.body_len - cut, cut); put_le(s, c.hdr_off + 8, c.file_length - cut, 8); d << c.type << " payload and length field reduced by " << cut; } break; }
+        case 7: { std::string ch = orig.substr(c.hdr_off, 16 + (size_t)c.file_length); int w = (int)rng.below(3); if (c.hdr_off > s.size()) break; if (w == 0) { s.erase(c.hdr_off, std::min(ch.size(), s.size() - c.hdr_off)); d << c.type << " chunk dropped"; } else if (w == 1) { s.insert(c.hdr_off, ch); d << c.type << " chunk duplicated"; }
                   else { RefFile o = ref_parse(other); if (o.ok && !o.chunks.empty()) { auto &oc = o.chunks[rng.below(o.chunks.size())]; s.insert(c.hdr_off, other.substr(oc.hdr_off, 16 + (size_t)oc.file_length)); d << oc.type << " chunk of another file spliced in"; } } break; }
         case 8: { if (s.empty()) break; size_t o = rng.below(s.size()); s[o] = (char)(s[o] ^ (1 << rng.below(8))); d << "bit flip@" << o; break; }
         case 9: { size_t o = rng.below(s.size() + 1); size_t n = 1 + rng.below(8); std::string ins; for (size_t k = 0; k < n; ++k) ins += (char)rng.below(256); s.insert(o, ins); d << "insert " << n << "@" << o; break; }
